@@ -184,6 +184,7 @@ def drive(sch, spec, sign=(1.0, 1.0), between=None):
     ev = []
     hook = between or (lambda: None)
     pause_resume = spec.get("name", "") not in ("moasha",)
+    stride = int(spec.get("stride", 1))
 
     def result_dict(tid, r):
         d = {METRIC: sign[0] * base_metric(spec["seed"], tid, r, style, 0), RES: r}
@@ -238,7 +239,7 @@ def drive(sch, spec, sign=(1.0, 1.0), between=None):
                 tid = next_id
                 next_id += 1
                 trials[tid] = Trial(trial_id=tid, config=sg.config, creation_time=EPOCH0)
-                start = 1
+                start = stride   # (`stride` > 1: the script reports every stride-th level only, never at level 1)
                 if sg.checkpoint_trial_id is not None:   # PBT: warm start from another trial's checkpoint
                     start = last_r.get(sg.checkpoint_trial_id, 0) + 1
                 upto = int(sg.config.get(MAXATTR, max_t)) if isinstance(sg.config.get(MAXATTR, max_t), (int, np.integer)) else max_t
@@ -266,7 +267,7 @@ def drive(sch, spec, sign=(1.0, 1.0), between=None):
                 break
             last_r[tid] = r
             ev.append(["result", tid, r, d])
-            workers[tid][0] = r + 1
+            workers[tid][0] = r + stride
             if d != SchedulerDecision.CONTINUE:
                 del workers[tid]
                 hook()
